@@ -68,6 +68,20 @@ claim('C11',
       'TLA+ spec (AppHistory.tla) + TLC exhaustive (action properties) + step-by-step replay of TLC-generated histories',
       'DESIGN.md 3/C11')
 
+claim('C12',
+      'Threads.tla (PlusCal) models N request threads executing the per-request program as labelled atomic steps over process-local '
+      'variables, sharing only the request-id counter and the immutable application; TLC proves NonInterference and UniqueIds over ALL '
+      'interleavings of 3-4 threads, and refutes each of three deliberately hazardous variants (value cached on the shared route / error '
+      'handler, non-atomic counter) - reported per run. Bound to the code by trace validation of real multi-threaded executions against '
+      'ONE Application under a deterministic scheduler whose switch points are sys.settrace line events inside clastic/* and the '
+      'sinter-generated code: every single-preemption schedule of ordered scenario pairs (success, 404, 405, non-breaking fall-through, '
+      'uncaught exception, redirect; request-derived provides), seeded random multi-preemption schedules of 3-4 threads, and '
+      'free-running stress (8 threads, 1 us switch interval); each recorded execution is validated by TLC (Threads_Trace).',
+      'Trusted: TLC; the scheduler (one worker runs at a time, so the log order is the execution order); interleavings inside C code are '
+      'atomic under the GIL; free-threaded builds out of scope.',
+      'PlusCal/TLA+ spec (Threads.tla) + TLC over all interleavings + trace validation of scheduler-controlled real thread executions',
+      'DESIGN.md 3/C12')
+
 claim('C13',
       'Wsgi.tla is the WSGI call protocol as a state machine (Call, StartResponse with the exc_info rule, Yield, OpenFile/CloseFile, '
       'Close; invariants StartedBeforeBody, StartBeforeBytes, HeadNoBody, FilesReleasedOnClose, ClosedMeansStarted) and WsgiWrap.tla '
